@@ -233,6 +233,7 @@ class Ctx:
         self.quick = tier == "quick"
         self.tie_cases = []        # (op dict, impl lines, label, driver or None, compare or None)
         self.broken = []           # obligations a property module found broken by itself
+        self.regen_only = False    # True: generate hooks only rewrite their files (no proof obligations)
         self.tie_direct = []       # (label, impl value, model-op dict, comparator)
         self.oracle_evals = 0
         self.oracle_keys = set()
@@ -281,6 +282,25 @@ def known_match(k, key):
     return False
 
 
+def regen_others(pid):
+    import importlib
+    pdir = os.path.join(VERIF, "tools", "props")
+    for fn in sorted(os.listdir(pdir)):
+        m = re.fullmatch(r"(c\d\d)\.py", fn)
+        if not m or m.group(1).upper() == pid:
+            continue
+        try:
+            src = open(os.path.join(pdir, fn)).read()
+            if "def generate(" not in src:
+                continue
+            mod = importlib.import_module("props." + m.group(1))
+            c = Ctx(m.group(1).upper(), "quick", 0)
+            c.regen_only = True
+            mod.generate(c)
+        except Exception:
+            pass        # a refusal for another property is that property's business
+
+
 def load_known():
     p = os.path.join(VERIF, "known_findings.json")
     if not os.path.exists(p):
@@ -305,6 +325,11 @@ def run_check(mod, pid, tier, seed, replay=None):
     broken = []       # obligations that no longer check (proof / audit / tie)
     theorems = list(mod.THEOREMS)
     targets = list(mod.LEAN_TARGETS)
+
+    # Source-derived Lean modules (lean/QclibModel/Gen/*.lean) of OTHER properties may be imported by this
+    # property's theorems (e.g. C01 -> C11) and may be stale from a run against different code: refresh them
+    # from the code under test first (files only; their own obligations belong to their own checks).
+    regen_others(pid)
 
     # optional: regenerate models from source
     gen_info = None
